@@ -173,5 +173,5 @@ class CommonHeader:
         nh = CommonNH.ANY
         ht = HeaderType.BEACON
         hst = HeaderSubType.UNSPECIFIED
-        tc = TrafficClass()
+        tc = TrafficClass.decode_from_int(mib.itsGnDefaultTrafficClass)
         return cls(nh=nh, reserved=0, ht=ht, hst=hst, tc=tc, flags=mib.itsGnIsMobile.value, pl=0, mhl=1)
